@@ -403,6 +403,29 @@ class NFEval:
                 if self.is_zero(darg):
                     continue
                 dk = self.mul(self.atom(k), darg)        # d exp(a) = exp(a) da
+            elif k in self.funcs and self.funcs[k][0] in ELEMENTARY:
+                fname, arg, lib = self.funcs[k]
+                darg = self.diff(arg, key, depth + 1)
+                if self.is_zero(darg):
+                    continue
+                one = self.num(1)
+                sq = self.mul(arg, arg)
+                if fname == 'log':
+                    fac = self.power(arg, self.S.F(-1))
+                elif fname in ('sin', 'cos', 'sinh', 'cosh'):
+                    other = {'sin': 'cos', 'cos': 'sin', 'sinh': 'cosh', 'cosh': 'sinh'}[fname]
+                    okey = '%s.%s(%s)' % (lib, other, arg.key())
+                    self.funcs[okey] = (other, arg, lib)
+                    fac = self.atom(okey)
+                    if fname == 'cos':
+                        fac = self.mul(self.num(-1), fac)
+                elif fname in ('arccos', 'acos'):
+                    fac = self.mul(self.num(-1), self.power(self.add(one, sq, -1), self.S.F(Fraction(-1, 2))))
+                elif fname in ('arcsin', 'asin'):
+                    fac = self.power(self.add(one, sq, -1), self.S.F(Fraction(-1, 2)))
+                else:                                     # arctan
+                    fac = self.power(self.add(one, sq), self.S.F(-1))
+                dk = self.mul(fac, darg)
             elif _mentions(k, key):
                 raise DiffUnsupported('opaque factor %s depends on %s' % (k[:60], key))
             else:
@@ -707,7 +730,16 @@ class NFEval:
         if n.ho is not None:
             # result of a numerical solve: identified by the call node itself
             return self.atom('solve#%d' % n.nid)
-        return self.atom('%s(%s)' % (name, ','.join(ks)))
+        key = '%s(%s)' % (name, ','.join(ks))
+        short = name.split('.')[-1]
+        if short in ELEMENTARY and len(args) == 1 and not n.kw and name.split('.')[0] in ('numpy', 'math'):
+            x = self.nf(args[0])
+            if x is not NAN and not isinstance(x, (PW, Struct)):
+                self.funcs[key] = (short, x, name.split('.')[0])      # differentiable through its argument
+        return self.atom(key)
+
+
+ELEMENTARY = {'log', 'sin', 'cos', 'arccos', 'arcsin', 'arctan', 'acos', 'asin', 'atan', 'sinh', 'cosh'}
 
 
 def leaves(x, conds=()):
